@@ -122,7 +122,7 @@ func genC20(t *rapid.T) c20Phase {
 	if vstat.Tier() == "thorough" {
 		dur = 5000
 	}
-	return c20Phase{
+	ph := c20Phase{
 		Clients:     rapid.IntRange(30, 120).Draw(t, "clients"),
 		Keys:        rapid.IntRange(4, 60).Draw(t, "keys"),
 		HotPct:      rapid.IntRange(0, 90).Draw(t, "hotPct"),
@@ -135,6 +135,13 @@ func genC20(t *rapid.T) c20Phase {
 		Seed:        rapid.Int64().Draw(t, "seed"),
 		BigBodies:   rapid.Bool().Draw(t, "bigBodies"),
 	}
+	if ph.PurgeEvery == 0 && ph.ReloadEvery == 0 {
+		ph.ReloadEvery = 150 // every phase has purges or reloads
+	}
+	if ph.UncachePct == 0 {
+		ph.UncachePct = 10 // and some pass-through traffic
+	}
+	return ph
 }
 
 type c20Stats struct {
